@@ -223,6 +223,10 @@ def finish(prop, tier, verif_seed, results, extra, det, known, pools, t0, shrink
                 print(f"  {v['class']}: {v['msg']}")
             print(f"  minimised in {nexec} executions: {trace}")
             print(f"VIOLATION property={prop} replay={path}")
+    if extra.get("harness_errors"):
+        print(f"HARNESS-ERROR: {extra['harness_errors']} enumerated kill points could not be executed")
+        if rc == 0:
+            rc = 2
     if harness or det["diverged"]:
         for r in harness[:5]:
             print(f"HARNESS-ERROR seed={r.get('seed')} {str(r.get('error'))[:1500]}")
